@@ -29,7 +29,15 @@ func lineAlphabet(unit string) []string {
 		"# h",                  // heading root
 		"* a", "+ b",           // other bullets
 		u + "* b",
+		other(u) + "- a", // indented wholly with the other character
 	}
+}
+
+func other(u string) string {
+	if u[0] == '\t' {
+		return "  "
+	}
+	return "\t"
 }
 
 type c02Replay struct {
@@ -90,7 +98,7 @@ func c02Judge(c *rep.Ctx, doc string, sp model.Spec, mode string) {
 			return
 		}
 		switch sp.Class {
-		case "no-bullet", "bad-multiple", "mixed-indent":
+		case "no-bullet", "bad-multiple", "mixed-indent", "mixed-indent-lines":
 			if !strings.Contains(err.Error(), sp.Line) {
 				c.Violation("C02|error-does-not-identify-line|"+sp.Class, fmt.Sprintf("mode=%s doc=%q: error %q does not contain the offending line %q", mode, doc, err, sp.Line), len(doc), rp)
 			}
